@@ -31,6 +31,7 @@ CONSTANTS
     MaxAge,     \* cap for ages and durations
     MaxDt,      \* stream: time advance per point 0..MaxDt
     MaxBDt,     \* batch: gap between the previous tmax and the first point 0..MaxBDt
+    BatchGaps,  \* batch: time between consecutive points of a batch, and from the last point to tmax
     MaxBatch,   \* batch: 1..MaxBatch points
     LeaveOKStartsDuration
                 \* TRUE: Impl as the code is since fix c143191 (addEvent records the start of
@@ -261,7 +262,7 @@ Point(p, dt) ==
     /\ ~cfg.batch
     /\ Step(<<[c |-> p.c, r |-> p.r, off |-> dt]>>, dt)
 
-(* offsets: first point at dt, the following ones 0 or 1 later, tmax 0 or 1  *)
+(* offsets: first point at dt, the following ones a gap later, tmax a gap     *)
 (* after the last point.                                                     *)
 Batch(ps, dt, gaps, g) ==
     /\ cfg.batch
@@ -276,7 +277,7 @@ EmptyBatch == cfg.batch /\ UNCHANGED vars
 Next ==
     \/ \E p \in Classes(cfg), dt \in 0..MaxDt : Point(p, dt)
     \/ \E n \in 1..MaxBatch :
-         \E ps \in [1..n -> Classes(cfg)], gaps \in [2..n -> 0..1], dt \in 0..MaxBDt, g \in 0..1 :
+         \E ps \in [1..n -> Classes(cfg)], gaps \in [2..n -> BatchGaps], dt \in 0..MaxBDt, g \in BatchGaps :
             Batch(ps, dt, gaps, g)
     \/ EmptyBatch
 
